@@ -64,6 +64,9 @@ class NaiveRegionSorter:
         :param eps: maximal distance between points in cluster
         :return: sorted indices to regions array
         """
+        if len(regions) == 0:
+            return []
+
         x_points = np.array([region.y_min for region in regions])
         y_points = [region.y_min for region in regions]
 
